@@ -227,7 +227,11 @@ def check_case(case, ctx):
         g = c.guardrails
         if g is None:
             key = None
-            if (par["keykind"] in ("lead7", "constant", "headerlike") or par["keykind"].startswith("straddle") or par.get("guardlook") or par.get("tail_lookalike")) and not key_is_top_ngram(ginfo["padded"], par["envkey"]):
+            hdr_ = b"\x00\x01\x00\x01\x00\x02\x00"
+            region_ = payload[max(base - 6, 0) : base + 8192 + 6] if not par["xorenc"] else b""
+            accidental = any(P.rx1(hdr_, k1) in region_ for k1 in (range(256) if par.get("allk") else (0x69, 0x2E, 0x00)))
+            if (par["keykind"] in ("lead7", "constant", "headerlike") or par["keykind"].startswith("straddle") or par.get("guardlook") or par.get("tail_lookalike")
+                    or accidental) and not key_is_top_ngram(ginfo["padded"], par["envkey"]):
                 key = "guardrails-key-frequency-heuristic"  # the Guardrails route cannot find the key, the look-alike block is what is left
             ctx.violation("recover.exact", "configuration returned without guardrails metadata (found by another route?)", case, key=key)
             return
@@ -276,10 +280,12 @@ def check_case(case, ctx):
         ctx.mon("negative.no_config")
         hdr = b"\x00\x01\x00\x01\x00\x02\x00"
         region = payload[max(base - 6, 0) : base + 8192 + 6] if not par["xorenc"] else b""
-        if c is not None and c.guardrails is None and any(P.rx1(hdr, k1) in region for k1 in (0x69, 0x2E, 0x00)):
-            # key and configuration bytes together happen to form a configuration-header look-alike under a default
-            # single-byte key (e.g. key 00 01 over '.. 00 00 00 00 00 03 00'): with the Guardrails layer unusable the
-            # ordinary extraction (C01) rightly returns that block - nothing of C17 to judge
+        tried = range(256) if par.get("allk") else (0x69, 0x2E, 0x00)
+        if c is not None and c.guardrails is None and any(P.rx1(hdr, k1) in region for k1 in tried):
+            # key and configuration bytes together happen to form a configuration-header look-alike under a single-byte key
+            # that the extraction tries (the defaults; any key in all-keys mode; e.g. key 00 01 over '.. 00 00 00 00 00 03 00',
+            # or a two-byte-periodic key over '00 04 00 04 00 07 00'): with the Guardrails layer unusable the ordinary
+            # extraction (C01) rightly returns that block - nothing of C17 to judge
             ctx.ok(fp=payload, nontrivial=False, case={"par": dict(par)}, classes=("neg:accidental-lookalike",))
             return
         if c is not None and neg != "rndpad":
@@ -318,6 +324,10 @@ def check_case(case, ctx):
             ctx.violation("extract.exception", f"after the intact payload: {type(e).__name__}: {e}", case)
             return
         plainish = par["keykind"] in ("lead7", "constant", "headerlike") or par["keykind"].startswith("straddle") or par.get("guardlook") or par.get("tail_lookalike")
+        if c2_ is not None and c2_.guardrails is None and not plainish:
+            # (an accidental header look-alike under a tried single-byte key, see the negatives above)
+            hdr2 = b"\x00\x01\x00\x01\x00\x02\x00"
+            plainish = any(P.rx1(hdr2, k1) in payload2 for k1 in (range(256) if par.get("allk") else (0x69, 0x2E, 0x00)))
         if c2_ is not None and not plainish:
             ctx.violation("negative.no_config", f"the same area with a wrong stored checksum, analysed right after the intact payload, produced a configuration "
                           f"(guardrails={'set' if c2_.guardrails else None})", case)
